@@ -258,7 +258,7 @@ def rule_body_text(ctx, file, s):
         return re.sub(pat, f, s, flags=flags)
     s = sub("R-assert", r"\b(?:debug_)?assert_eq!\(([^,;]+), ([^;,]+?)\);", r"runtime_assert(\1 == \2);", s)
     s = sub("R-assert", r"\b(?:debug_)?assert_ne!\(([^,;]+), ([^;,]+?)\);", r"runtime_assert(\1 != \2);", s)
-    s = sub("R-assert", r"(?<![\w!])(?:debug_)?assert!\(([^;,\"]+?)\);", r"runtime_assert(\1);", s)
+    s = sub("R-assert", r"(?<![\w!])(?:debug_)?assert!\(((?:[^;,\"]|\"[^\"]*\")+?)\);", r"runtime_assert(\1);", s)
     s = sub("R-split", r"(\w+)\.split\('(.)'\)\.collect::<Vec<_>>\(\)", r"str_split_char(\1, '\2')", s)
     s = sub("R-split", r"(let (?:mut )?\w+\s*:\s*Vec<&str>\s*=\s*)(\w+)\.split\('(.)'\)\.collect\(\)", r"\1str_split_char(\2, '\3')", s)
     # R-lebytes: `x.to_le_bytes()` -> shim wrapper with the byte-wise specification (the std signature cannot be given an assume_specification)
@@ -1048,6 +1048,8 @@ class FileEmitter:
             self.ctx.fn_index.append({"file": self.rel, "impl": "impl ValidatorFn for " + name, "fn": "call", "line": it.line, "external_body": False, "stubbed": False,
                                       "body_hash": hashlib.sha1(re.sub(r"\s+", " ", body).encode()).hexdigest()[:16], "hints_dropped": [], "body_text": re.sub(r"\s+", " ", body)[:6000],
                                       "contract": True, "safety": spec.safety if spec else [], "labels": [lab] if lab else [],
+                                      "callees": sorted(set(re.findall(r"\b([A-Za-z_]\w*)\s*(?:::\s*<[^<>()]*>)?\s*\(", re.sub(r'"(?:[^"\\]|\\.)*"', '""', body))) - {"if", "while", "for", "match", "return", "Some", "Ok", "Err", "None", "loop", "in", "let", "as"}),
+                                      "loops": len(re.findall(r"\b(?:for|while|loop)\b", re.sub(r'"(?:[^"\\]|\\.)*"', '""', body))), "closure_calls": 0, "sig_norm": "",
                                       "ens_labels": [lab] if lab else [], "ens_texts": [(lab, verdict)] if lab else []})
             self.ctx.log("R-lift", self.rel, it.line, b[m.start():m.start() + 60], "&" + name)
             b = b[:m.start()] + "&" + name + b[cb + 1:]
